@@ -15,7 +15,9 @@ MANIFEST_ENTRY = {
             "(C02_reference_sppf_exact: whenever it answers, its list holds exactly the packed alternatives -- span, "
             "production, split into derivable pieces -- of the spans occurring top-down in some parse; chart sound and "
             "complete once saturated); the implementation forest's packed alternatives are compared with it in both "
-            "directions on every explored sentence",
+            "directions on every explored sentence; the sound half is also a theorem about the GLR driver model "
+            "(C02_glr_model_forest_only_parses: its packed forest holds only parse trees), which is compared exactly "
+            "with GLRParser",
     "note": "trusted: Lean kernel; glr.py's reducer is modelled executably (Model/GLR.lean) and compared exactly "
             "(acceptance and alternative sets) on every input except those with order-sensitive revisit sets; that the "
             "model's packed forest holds only parse trees is a theorem (C02_glr_model_forest_only_parses, every wf "
